@@ -261,6 +261,16 @@ pub fn mutations(n: usize, conns: &[(K, K)]) -> Vec<Vec<Op>> {
             out.push(vec![Op::Connect(u, v, e)]);
         }
     }
+    // try_connect: accepted on a free pair, refused on a used one (a refused call must leave nothing behind,
+    // which a later disconnect of that edge would expose)
+    for u in 0..n as K {
+        for v in 0..n as K {
+            out.push(vec![Op::TryConnect(u, v, e)]);
+            if pairs.contains(&(u, v)) {
+                out.push(vec![Op::TryConnect(u, v, e), Op::Disconnect(u, v)]);
+            }
+        }
+    }
     for (a, b) in &pairs {
         out.push(vec![Op::Disconnect(*a, *b)]);
         for u in 0..n as K {
